@@ -19,3 +19,23 @@ func VerifPoisonBlockPool(n int) {
 		putBuf(b)
 	}
 }
+
+// VerifFillBlockPool overwrites up to n pooled block buffers with content
+// (the rest of each buffer with the fixed pattern) and returns them to the
+// pool. A reader that uses more of a block buffer than it has just filled then
+// finds this content - e.g. a block with valid checksums from another file -
+// instead of the pattern. Verification builds only.
+func VerifFillBlockPool(n int, content []byte) {
+	bufs := make([][]byte, 0, n)
+	for i := 0; i < n; i++ {
+		b := getBuf()
+		k := copy(b, content)
+		for j := k; j < len(b); j++ {
+			b[j] = 0xA5
+		}
+		bufs = append(bufs, b)
+	}
+	for _, b := range bufs {
+		putBuf(b)
+	}
+}
